@@ -56,6 +56,7 @@ import PyCraft.Props.C01BufferRefine
 #print axioms PyCraft.C01BufferFrame.read_packet_compressed
 #print axioms PyCraft.C01BufferFrame.readPacketOps_plain
 #print axioms PyCraft.C01BufferFrame.readPacketOps_compressed
+#print axioms PyCraft.C01BufferFrame.write_packet_ops
 #print axioms PyCraft.C01BufferRefine.send_at_end
 #print axioms PyCraft.C01BufferRefine.send_at_end_pos
 #print axioms PyCraft.C01BufferRefine.readMoreBuf_refines
